@@ -22,6 +22,8 @@ META = {
     'trusted_base': ['sa/specs/dns.json', 'sa.interp/layout/canon/compare/spec', 'cryptodatahub named-group.json'],
     'exhaustive': True,
 }
+
+META['explanation'] += ' ' + 'R6: explicit rejections against the reviewed table. R7: TXT character-strings (tabulated). R8: RRSIG timestamps and DNSKEY flags through the shared primitives (tabulated). R9: fixed length integers exact for every bit length, refusal instead of truncation. R5 also tabulates the RSA modulus width for moduli that are exact powers of two, with the key size modelled as the dependency computes it. R10: a parser whose consumed length is not reported tests that nothing is left unread. Spec items name the attribute they carry.'
 MODULES = {'cryptoparser.dnsrec.record'}
 HERE = os.path.dirname(os.path.dirname(os.path.abspath(__file__)))
 
